@@ -209,6 +209,7 @@ def cfg(max_len=40, letters=None):
 def run(ctx):
     st = State()
     pt = install(ctx, st)
+    ctx.enable_disturb(pt, 0.03)     # other legitimate library calls interleaved between cases (vf.gen.disturb)
     rng = ctx.rng
     big, small = cfg(40), cfg(12)
     # tandem repeats / low-complexity proteins: a peptide occurs at several, overlapping offsets of its protein
